@@ -33,6 +33,8 @@ def run(model, rep):
     for r, t in [('C07.GUARD', 'replacement site carries the eight guard facts'), ('C07.TYPE', 'equal_value_and_type refuses cross-type pairs (enumerated)'),
                  ('C07.ERR', 'both evaluations inside try/except Exception returning the node unchanged'), ('C07.NEG', 'negative results rebuilt as UnaryOp(USub, positive constant)')]:
         rep.rule(r, t)
+    rep.rule('C07.ENUM', 'the folding transform, abstractly run on every operand-type pair x operator and on nested forms, never changes type, value or error')
+    enum(model, rep)
     fi = model.func(FOLD)
     F = Facts(fi.node)
     defs = local_defs(fi.node)
@@ -49,6 +51,7 @@ def run(model, rep):
         if isinstance(par, ast.Assign) and isinstance(par.targets[0], ast.Name):
             eval_vars[par.targets[0].id] = c
 
+    shape_ok = True
     for (ret, facts) in reps:
         where = fi.loc(ret)
         key0 = 'C07.GUARD|' + src(ret.value)[:60]
@@ -62,7 +65,9 @@ def run(model, rep):
         elif isinstance(v, ast.Name):
             newvar = v.id
         if newvar is None:
-            rep.violation('C07.GUARD', where, 'return ' + src(v), 'replacement value is not a tracked variable', key=key0 + '|shape')
+            # the replacement is produced by a helper: the guard facts are not visible at this site; behaviour is decided by C07.ENUM
+            rep.note('C07.GUARD not applicable at %s: `return %s` builds the replacement through a helper (C07.ENUM decides the behaviour)' % (where, src(v)[:60]))
+            shape_ok = False
             continue
         # 1. operands
         for side in ('left', 'right'):
@@ -121,7 +126,8 @@ def run(model, rep):
                 ok = len(names) == 2 and names <= set(eval_vars)
         rep.check(ok, 'C07.GUARD', where, 'equal_value_and_type(candidate value, original value)', 'fact present, arguments are the two evaluation results',
                   'the strict value-and-type comparison of the two evaluation results does not guard the replacement', key=key0 + '|equal')
-    rep.floor('C07.GUARD', 9)
+    if shape_ok:
+        rep.floor('C07.GUARD', 9)
 
     # ---------------- ERR
     n = 0
@@ -139,7 +145,8 @@ def run(model, rep):
         rep.check(broad and unchanged, 'C07.ERR', fi.loc(c), src(model.parent(c))[:80], 'inside try/except Exception -> return node',
                   'evaluation of literal arithmetic can raise (ZeroDivisionError, OverflowError, TypeError, ValueError, MemoryError) and is not caught by a handler that leaves the expression alone',
                   key='C07.ERR|' + src(c))
-    rep.floor('C07.ERR', 2)
+    if shape_ok:
+        rep.floor('C07.ERR', 2)
 
     # ---------------- TYPE (abstract enumeration)
     eq = model.func(MOD + '.equal_value_and_type')
@@ -192,4 +199,142 @@ def run(model, rep):
                               'a constant node can be built from a negative value (it would print as a unary minus and not round-trip) or from something other than the evaluated value', key=key)
                 else:
                     rep.violation('C07.NEG', fi.loc(n_), t[:80], 'replacement node built by an unexpected constructor', key=key)
-    rep.floor('C07.NEG', 3)
+    if shape_ok:
+        rep.floor('C07.NEG', 3)
+
+
+# ---------------------------------------------------------------------- ENUM: the folding transform abstractly run on literal arithmetic
+OPERANDS = ['0', '1', '2', '3', '7', '10', 'True', 'False', '0.0', '1.0', '2.0', '0.5', '1e308', '1j', '100000']
+OPS = ['+', '-', '*', '%', '//', '<<', '>>', '|', '&', '^', '/', '**', '@']
+NESTED = ['(1+2)*(1.0+2)', '(2*3)-(2.0*3)', '1+2+3.0', '2**3+1', '-1+2', '(1<<2)+(1.0<<2)', '[1<<2, 1.0<<2]', '1+2 if 1.0+2 else True+2', '(0*1.0)+(0*1)', '1e308*10+1', '(1-2)*3', '(1-2)-(1.0-2)',
+          '10*10*10*10', '1000*1000+0.5', '(True+True)*(1+1)', '1j*1j+1', '(5%3)+(5.0%3)', '7//2+7.0//2', '(1|2)&3', '3-3.0', '0.5+0.5']
+
+
+def obj_to_ast(o):
+    from ..absint import Obj
+    if isinstance(o, list):
+        return [obj_to_ast(x) for x in o]
+    if not isinstance(o, Obj):
+        return o
+    cls = getattr(ast, o.cls)
+    kw = {}
+    for f in cls._fields:
+        if f in o.attrs:
+            kw[f] = obj_to_ast(o.attrs[f])
+    node = cls(**kw)
+    if isinstance(node, ast.expr) and not hasattr(node, 'ctx') and 'ctx' in cls._fields:
+        node.ctx = ast.Load()
+    return node
+
+
+def outcome(expr_node):
+    """(type name, repr) of evaluating a literal-only expression tree with empty namespaces, or ('raises', exception type)."""
+    try:
+        code = compile(ast.fix_missing_locations(ast.Expression(body=expr_node)), 'literal', 'eval')
+        v = eval(code, {'__builtins__': {}}, {})  # the tree consists of literals and operators generated by this checker only
+    except Exception as e:
+        return ('raises', type(e).__name__)
+    try:
+        return (type(v).__name__, repr(v))
+    except ValueError:
+        return (type(v).__name__, hex(v))
+
+
+def literal_only(node):
+    return all(isinstance(n, (ast.Expression, ast.BinOp, ast.UnaryOp, ast.Constant, ast.operator, ast.unaryop, ast.List, ast.IfExp, ast.Tuple, ast.expr_context)) for n in ast.walk(node))
+
+
+def enum(model, rep):
+    import copy
+    from ..absint import ClassRef
+    from ..absnodes import set_parents
+    from ..absprint import printer_hooks, to_obj
+    FC = MOD + '.FoldConstants'
+    fi = model.func(FOLD)
+
+    def safe_eval_hook(I, e, args, kw, env):
+        text = args[0]
+        if not isinstance(text, str):
+            return TOP
+        try:
+            t = ast.parse(text, mode='eval')
+        except SyntaxError:
+            from ..absint import _Raise
+            raise _Raise('SyntaxError')
+        if not literal_only(t):
+            raise AnalysisError('the folding transform evaluates %r, which is not literal-only arithmetic' % text[:60])
+        try:
+            return eval(compile(t, 'literal', 'eval'), {'__builtins__': {}}, {})
+        except Exception as ex:
+            from ..absint import _Raise
+            raise _Raise(type(ex).__name__)
+
+    def run_module(source):
+        tree = ast.parse(source)
+        mod = to_obj(copy.deepcopy(tree))
+        set_parents(mod)
+        hooks = printer_hooks()
+        hooks.pop('compare_ast', None)
+        hooks['safe_eval'] = safe_eval_hook
+        hooks['math.isnan'] = lambda I, e, args, kw, env: (args[0] != args[0]) if isinstance(args[0], float) else (TOP if args[0] is TOP else False)
+        I = Interp(model, MOD, hooks, max_depth=600)
+        I.MAX_PATHS = 16
+
+        def thunk():
+            I.call_function('python_minifier.rename.mapper.add_namespace', [mod])
+            t = I.construct(ClassRef('FoldConstants', FC), [], {})
+            return I.call_method(FC, '__call__', t, [mod])
+        res = I.explore(thunk)
+        if len(res) == 1 and res[0][0][0] == 'raise':
+            return tree, ('raise', res[0][0][1])
+        if len(res) != 1 or res[0][0][0] != 'return':
+            raise AnalysisError('UNDECIDED: FoldConstants on %r... -> %s %s' % (source[:40], [r[0] for r in res][:2], res[0][2][:3]))
+        out = res[0][0][1]
+        return tree, (out if out is not None else mod)
+
+    cells = 0
+    bad = []
+    sources = []
+    quick = rep.tier != 'thorough'
+    operands = [o for o in OPERANDS if o not in ('7', '10', '100000', '2.0', '3', '1e308')] if quick else OPERANDS
+    for op in OPS:
+        lines = ['v%d = %s %s %s' % (i, a, op, b) for i, (a, b) in enumerate((a, b) for a in operands for b in operands)]
+        sources.append(('all operand pairs for %s' % op, '\n'.join(lines) + '\n'))
+        if not quick or op in ('+', '<<', '*'):
+            sources.append(('all operand pairs for %s, reversed order' % op, '\n'.join(reversed(lines)) + '\n'))
+    sources.append(('nested expressions', '\n'.join('w%d = %s' % (i, e) for i, e in enumerate(NESTED)) + '\n'))
+    sources.append(('nested expressions, reversed order', '\n'.join('w%d = %s' % (i, e) for i, e in reversed(list(enumerate(NESTED)))) + '\n'))
+    for (label, source) in sources:
+        tree, out = run_module(source)
+        if isinstance(out, tuple):
+            rep.violation('C07.ENUM', fi.loc(), label, 'the folding transform raises %s on literal arithmetic whose evaluation fails; such expressions must be left alone' % out[1], key='C07.ENUM|raises|' + label.split(',')[0])
+            bad.append(None)
+            continue
+        body = out.attrs['body']
+        if len(body) != len(tree.body):
+            raise AnalysisError('FoldConstants changed the number of statements')
+        for orig_stmt, new_stmt in zip(tree.body, body):
+            cells += 1
+            new_expr = obj_to_ast(new_stmt.attrs['value'])
+            if ast.dump(new_expr) == ast.dump(orig_stmt.value):
+                continue  # left alone
+            want = outcome(copy.deepcopy(orig_stmt.value))
+            got = outcome(new_expr)
+            text = ast.unparse(orig_stmt.value)
+            if got != want:
+                bad.append((label, text, ast.unparse(new_expr), want, got))
+            elif ast.dump(new_expr) != ast.dump(orig_stmt.value) and len(ast.unparse(new_expr).replace(' ', '')) > len(text.replace(' ', '')):
+                bad.append((label, text, ast.unparse(new_expr), 'not longer', 'longer'))
+    seen = set()
+    for (label, text, new, want, got) in [b for b in bad if b is not None]:
+        k = (text, new)
+        if k in seen:
+            continue
+        seen.add(k)
+        if len(seen) > 6:
+            break
+        rep.violation('C07.ENUM', fi.loc(), '%s  ->  %s   (%s)' % (text, new, label), 'original evaluates to %s, the folded form to %s' % (want, got), key='C07.ENUM|%s|%s' % (text, new))
+    if not bad:
+        rep.ok('C07.ENUM', fi.loc(), 'FoldConstants on %d literal expressions (%d operand pairs x %d operators in one module, both orders; %d nested)' % (cells, len(operands) ** 2, len(OPS), len(NESTED)),
+               'every folded form evaluates to the identical type and value (or is left alone), none is longer', cells=cells, key='C07.ENUM|all')
+    rep.floor('C07.ENUM', 1)
